@@ -36,6 +36,7 @@ import (
 	"github.com/shutter-network/rolling-shutter/rolling-shutter/shdb"
 
 	"verif/sim/pgsim"
+	"verif/sim/simeth"
 	"verif/sim/simkit"
 	"verif/sim/simnet"
 	"verif/sim/simtm"
@@ -100,6 +101,7 @@ type cNode struct {
 	scfg    *shutterservice.Config
 	skpr    *shutterservice.Keyper
 	access  bool // Gnosis access node (no database, keys topic only)
+	produce chan *broker.Event[*epochkghandler.DecryptionTrigger]
 }
 
 type worldC struct {
@@ -118,6 +120,10 @@ type worldC struct {
 	provision func(nd *cNode)
 	fl        flavour
 	accessNodes []*cNode
+	// chain, if set, is the simulated execution chain the nodes' syncers talk to
+	chain *simeth.Chain
+	// onTrigger observes every decryption trigger a flavour's trigger logic emits
+	onTrigger func(nd *cNode, tr *epochkghandler.DecryptionTrigger)
 }
 
 func sqlKey(req *pgsim.Request) string {
@@ -215,6 +221,27 @@ func (w *worldC) addNode(name string, idx int, state dkgState, extra func(nd *cN
 		epochkghandler.NewEonPublicKeyHandler(nd.cfg, nd.pool),
 	}
 	nd.trigger = make(chan *broker.Event[*epochkghandler.DecryptionTrigger])
+	// the flavour's trigger logic writes to produce; a forwarder (observation point for the
+	// oracles) hands every trigger on to the real KeyShareHandler
+	produce := nd.trigger
+	if w.onTrigger != nil {
+		produce = make(chan *broker.Event[*epochkghandler.DecryptionTrigger])
+		go func() {
+			for {
+				select {
+				case ev := <-produce:
+					w.onTrigger(nd, ev.Value)
+					select {
+					case nd.trigger <- ev:
+					case <-nd.ctx.Done():
+						return
+					}
+				case <-nd.ctx.Done():
+					return
+				}
+			}
+		}()
+	}
 	// The flavours' Start registers its own handlers first, wraps the messaging in its
 	// middleware and lets the core register its handlers through the middleware; the same
 	// order is reproduced here (Start itself dials URLs and is not executed).
@@ -251,7 +278,8 @@ func (w *worldC) addNode(name string, idx int, state dkgState, extra func(nd *cN
 		mw := gnosis.NewMessagingMiddleware(nd.msg, nd.pool, cfg)
 		mw.AddMessageHandler(coreHandlers...)
 		nd.sender = mw
-		nd.gkpr = gnosis.VerifNewKeyper(cfg, nd.pool, nd.trigger)
+		nd.produce = produce
+		nd.gkpr = gnosis.VerifNewKeyper(cfg, nd.pool, produce)
 	case flService:
 		cfg := shutterservice.NewConfig()
 		cfg.InstanceID = cInstanceID
@@ -262,7 +290,8 @@ func (w *worldC) addNode(name string, idx int, state dkgState, extra func(nd *cN
 		mw := shutterservice.NewMessagingMiddleware(nd.msg, nd.pool, cfg)
 		mw.AddMessageHandler(coreHandlers...)
 		nd.sender = mw
-		nd.skpr = shutterservice.VerifNewKeyper(cfg, nd.pool, nd.trigger, nil, nil)
+		nd.produce = produce
+		nd.skpr = shutterservice.VerifNewKeyper(cfg, nd.pool, produce, nil, nil)
 	}
 	if extra != nil {
 		extra(nd)
@@ -362,6 +391,15 @@ func (w *worldC) provisionConfig(nd *cNode, kci, eon int64, state dkgState, memb
 // gate switches the database seam of every node on: from now on each request
 // parks in the scheduler.
 func (w *worldC) gate() {
+	if w.chain != nil && w.chain.Gate == nil {
+		w.chain.Gate = func(node, method, key string) error {
+			v := w.s.Park(node, "eth", method+" "+key, method)
+			if e, ok := v.(error); ok {
+				return e
+			}
+			return nil
+		}
+	}
 	for _, nd := range w.nodes {
 		nd := nd
 		if nd.gated {
@@ -466,7 +504,15 @@ func (w *worldC) close() {
 	for _, nd := range w.nodes {
 		nd.cancel()
 	}
-	w.s.Shutdown(func(rq *simkit.Req) any { return pgsim.ResetConnBefore })
+	w.s.Shutdown(func(rq *simkit.Req) any {
+		if _, ok := rq.Info.(*pgsim.Request); ok {
+			return pgsim.ResetConnBefore
+		}
+		return errInjectedRPC
+	})
+	if w.chain != nil {
+		w.chain.Gate = nil
+	}
 	for _, nd := range w.nodes {
 		nd.db.SetGate(nil)
 		nd.db.KillAll()
@@ -476,6 +522,9 @@ func (w *worldC) close() {
 		}
 	}
 	w.net.Close()
+	// pgxpool sleeps 500ms in a goroutine after it destroyed a connection; the bubble must
+	// not end before those goroutines have finished
+	time.Sleep(2 * time.Second)
 }
 
 // refKey is the ground-truth epoch secret key for an identity.
@@ -563,4 +612,25 @@ func (w *worldC) triggerGnosisSlot(nd *cNode, slot uint64, nextBlock int64) {
 			w.r.Eventf("%s triggerDecryption(slot=%d) error: %v", nd.name, slot, err)
 		}
 	})
+}
+
+// encodeResult renders a successful pure DKG result of the trusted-dealer eon keys for a node.
+func encodeResult(w *worldC, nd *cNode, eon int64) []byte {
+	var pks []*shcrypto.EonPublicKeyShare
+	for i := 0; i < w.n; i++ {
+		pks = append(pks, w.keys.EonPublicKeyShare(i))
+	}
+	idx := nd.idx
+	if idx < 0 {
+		idx = 0
+	}
+	res := puredkg.Result{
+		Eon: uint64(eon), NumKeypers: uint64(w.n), Threshold: uint64(w.t), Keyper: uint64(idx),
+		SecretKeyShare: w.keys.EonSecretKeyShare(idx), PublicKey: w.keys.EonPublicKey(), PublicKeyShares: pks,
+	}
+	enc, err := shdb.EncodePureDKGResult(&res)
+	if err != nil {
+		w.r.InfraFail("EncodePureDKGResult: %v", err)
+	}
+	return enc
 }
